@@ -181,7 +181,7 @@ defjvp(
 def forward_grad_np_var(g, ans, x, axis=None, ddof=0, keepdims=False):
     if axis is None:
         num_reps = anp.size(g)
-    elif isinstance(axis, int):
+    elif isinstance(axis, (int, onp.integer)):
         num_reps = anp.shape(g)[axis]
     elif isinstance(axis, tuple):
         num_reps = anp.prod(anp.array(np.shape(g))[list(axis)])
@@ -196,7 +196,7 @@ defjvp(anp.var, forward_grad_np_var)
 def forward_grad_np_std(g, ans, x, axis=None, ddof=0, keepdims=False):
     if axis is None:
         num_reps = anp.size(g)
-    elif isinstance(axis, int):
+    elif isinstance(axis, (int, onp.integer)):
         num_reps = anp.shape(g)[axis]
     elif isinstance(axis, tuple):
         num_reps = anp.prod(anp.array(anp.shape(g))[list(axis)])
@@ -214,7 +214,7 @@ def fwd_grad_chooser(g, ans, x, axis=None, keepdims=False):
     if anp.isscalar(x):
         return g
     if not keepdims:
-        if isinstance(axis, int):
+        if isinstance(axis, (int, onp.integer)):
             ans = anp.expand_dims(ans, axis)
         elif isinstance(axis, tuple):
             for ax in sorted(a % anp.ndim(x) for a in axis):
